@@ -31,10 +31,10 @@ def run_txt(chk, tier, model_ok, tag):
     c06_corpus.run_corpus(chk, tier)
     mods = [c06_txt.pinned_f1(), c06_txt.pinned_f13(), c06_txt.pinned_array(), c06_txt.pinned_enum(),
             c06_txt.pinned_anon_skip()]
-    n_mod = 8 if tier == "quick" else 100
+    n_mod = 8 if tier == "quick" else 60
     for i in range(n_mod):
         mods.append((c06_gen.gen_module(r, "m%d" % i), "generated", None))
-    c06_txt.run_modules(chk, mods, 2 if tier == "quick" else 6, r, model_ok, tier)
+    c06_txt.run_modules(chk, mods, 2 if tier == "quick" else 5, r, model_ok, tier)
     if tier == "thorough":
         # second runtime code path (portable byte loops) and second compiler, on a subset
         c06_txt.run_modules(chk, mods[:17], 2, r, model_ok, tier, compiler="g++",
